@@ -1,40 +1,42 @@
-//! pv — differential harness: generates cases, runs the real peppi, pipes the same cases to the Lean
-//! driver, compares, and runs the implementation-level oracles.  One JSON report per invocation.
-mod gen; mod dump; mod suites; mod arrowdump;
+//! pv — correspondence harness.  `pv gen <suite> <seed> <n> <tier> <out.jsonl> [progress]` generates the
+//! cases of one suite from one PRNG state, runs the real peppi on each (in-process, under
+//! `catch_unwind`), evaluates the implementation-level oracles, and writes one JSON object per case:
+//! `{"line": <model driver input>, "impl": <canonical result>, "oracle": [[prop, msg]..], "tags": [..]}`.
+//! The check driver (bin/check) pipes the `line`s to the Lean driver and compares.
+mod arrowdump; mod dump; mod gen; mod spec; mod suites; mod suites2;
 use std::io::Write;
-use std::process::{Command, Stdio};
 
-pub struct Case { pub line: String, pub impl_out: String, pub oracle_fail: Option<String>, pub tags: Vec<String> }
+pub struct Case { pub line: String, pub impl_out: String, pub oracle: Vec<(String, String)>, pub tags: Vec<String> }
+impl Case {
+    pub fn new(line: String, impl_out: String) -> Case { Case { line, impl_out, oracle: vec![], tags: vec![] } }
+    pub fn fail(&mut self, prop: &str, msg: impl Into<String>) { self.oracle.push((prop.to_string(), msg.into())); }
+}
+
+pub struct Ctx { pub seed: u64, pub n: usize, pub thorough: bool, out: std::io::BufWriter<std::fs::File>, progress: Option<String>, pub count: usize }
+impl Ctx {
+    /// record the input about to be run, so that an abort / hang of the process can be attributed
+    pub fn starting(&mut self, what: &str) {
+        if let Some(p) = &self.progress { let _ = std::fs::write(p, what); }
+    }
+    pub fn push(&mut self, c: Case) {
+        // an empty trailing argument would vanish when the driver splits the line on spaces
+        let c = if c.line.ends_with(' ') { Case { line: format!("{}-", c.line), ..c } } else { c };
+        let j = serde_json::json!({"line": c.line, "impl": c.impl_out, "oracle": c.oracle, "tags": c.tags});
+        writeln!(self.out, "{}", j).unwrap(); self.count += 1;
+    }
+}
 
 fn main() {
-    std::panic::set_hook(Box::new(|_| {}));
+    if std::env::var("PV_PANIC").is_err() { std::panic::set_hook(Box::new(|_| {})); }
     let args: Vec<String> = std::env::args().collect();
-    if args.len() < 6 { eprintln!("usage: pv run <suite,suite,..> <seed> <n> <driver> <outdir>"); std::process::exit(2); }
-    let suites: Vec<&str> = args[2].split(',').collect();
-    let seed: u64 = args[3].parse().unwrap(); let n: usize = args[4].parse().unwrap();
-    let driver = &args[5]; let outdir = &args[6];
-    std::fs::create_dir_all(outdir).unwrap();
-    let mut cases: Vec<Case> = vec![];
-    for s in &suites { suites::run(s, seed, n, &mut cases); }
-    // pipe to the model
-    let mut child = Command::new(driver).stdin(Stdio::piped()).stdout(Stdio::piped()).spawn().expect("driver");
-    { let mut stdin = child.stdin.take().unwrap(); let lines: String = cases.iter().map(|c| c.line.clone() + "\n").collect();
-      std::thread::spawn(move || { let _ = stdin.write_all(lines.as_bytes()); }); }
-    let out = child.wait_with_output().unwrap();
-    let model: Vec<String> = String::from_utf8_lossy(&out.stdout).lines().map(|s| s.to_string()).collect();
-    let canon = |s: &str| if s.starts_with("err") { "err".to_string() } else { s.to_string() };
-    let mut disagreements = vec![]; let mut oracle_failures = vec![]; let mut distinct = std::collections::BTreeSet::new();
-    let mut tags: std::collections::BTreeMap<String, usize> = Default::default();
-    for (i, c) in cases.iter().enumerate() {
-        let m = model.get(i).map(|s| s.as_str()).unwrap_or("<missing>");
-        if canon(m) != canon(&c.impl_out) { disagreements.push(serde_json::json!({"index": i, "case": c.line.chars().take(20000).collect::<String>(), "impl": c.impl_out, "model": m})); }
-        if let Some(f) = &c.oracle_fail { oracle_failures.push(serde_json::json!({"index": i, "case": c.line.chars().take(20000).collect::<String>(), "what": f})); }
-        if !c.impl_out.starts_with("err") { distinct.insert(c.impl_out.clone()); }
-        for t in &c.tags { *tags.entry(t.clone()).or_default() += 1; }
-    }
-    let samples: Vec<String> = cases.iter().step_by((cases.len() / 5).max(1)).take(5).map(|c| format!("{} => {}", c.line.chars().take(160).collect::<String>(), c.impl_out.chars().take(160).collect::<String>())).collect();
-    let report = serde_json::json!({ "suites": suites, "seed": seed, "evaluations": cases.len(), "distinct_nontrivial": distinct.len(),
-        "disagreements": disagreements, "oracle_failures": oracle_failures, "distribution": tags, "samples": samples, "model_lines": model.len() });
-    std::fs::write(format!("{}/report.json", outdir), serde_json::to_string_pretty(&report).unwrap()).unwrap();
-    println!("cases={} disagreements={} oracle_failures={}", cases.len(), report["disagreements"].as_array().unwrap().len(), report["oracle_failures"].as_array().unwrap().len());
+    if args.len() < 7 || args[1] != "gen" { eprintln!("usage: pv gen <suite> <seed> <n> <quick|thorough> <out.jsonl> [progress-file]"); std::process::exit(2); }
+    let suite = args[2].clone(); let seed: u64 = args[3].parse().unwrap(); let n: usize = args[4].parse().unwrap();
+    let thorough = args[5] == "thorough";
+    let out = std::io::BufWriter::new(std::fs::File::create(&args[6]).unwrap());
+    let mut ctx = Ctx { seed, n, thorough, out, progress: args.get(7).cloned(), count: 0 };
+    // big recursion (deep metadata) must not be mistaken for a harness problem: run on a thread with the
+    // default main-thread stack size (8 MiB), like a user's `main`
+    let h = std::thread::Builder::new().stack_size(8 << 20).spawn(move || { suites::run(&suite, &mut ctx); ctx.out.flush().unwrap(); ctx.count }).unwrap();
+    let count = h.join().unwrap();
+    println!("cases={}", count);
 }
